@@ -51,12 +51,12 @@ CLAIMED['C17'] = dict(
          '"raises or returns the true data". Footer/header reads only as far as their contracts exist.',
     note='AX-POOL, AX-GIL, AX-FILE/AX-BLOB weak form; value side is C02 (fault-free executions)')
 CLAIMED['C01'] = dict(
-    text='Proof of the producer side for the routes under contract (NumPy so far) + layout agreement: every array put on the compression queue = edge-replicated source on its box, '
+    text='Proof of the producer side for the routes under contract (NumPy; regular SEG-Y through segyio and through the reduced-I/O reader incl. its byte offsets) + layout agreement: every array put on the compression queue = edge-replicated source on its box, '
          'exact shape, and its cells land at spec_off in the file, all cube shapes, every valid setting; reader side = C02 (read_volume under contract); pipeline order = C16; sizes = C03. '
-         'SEG-Y/reduced-I/O/CLI/VDS/ZGY routes: only as far as their producer contracts are present (see evidence).',
+         'Irregular and 2-D SEG-Y: C08/C09. CLI/VDS/ZGY handles: assumed to behave like the segyio handle model.',
     note='AX-ZFP-ENC, AX-NP-INDEX, sequential loop order; composition across contracts by modularity, not re-proved end to end')
 CLAIMED['C20'] = dict(
-    text='Proof for the routes under contract (NumPy so far): the byte strings fed to the hash object are exactly the real inlines of the source, each once, in trace order, for all shapes and settings.',
+    text='Proof for the routes under contract (NumPy, regular SEG-Y with either reader): the byte strings fed to the hash object are exactly the real inlines of the source, each once, in trace order, for all shapes and settings.',
     note='AX-SHA1 (incl. collision resistance); write_hash patch / accessor / re-blocker copy not yet under contract')
 CLAIMED['C11'] = dict(
     text='Proof per function (modular): window acceptance in SeismicFileConverter.__init__ (0 is a bound), header-array sizing, make_header window words, io_thread_func '
